@@ -21,6 +21,7 @@ func main() {
 	flag.StringVar(&opt.OnlyFunc, "func", "", "only this function (development)")
 	flag.StringVar(&opt.DumpDir, "dump", "", "directory for SMT dumps")
 	flag.BoolVar(&opt.Verbose, "v", false, "print every obligation")
+	flag.BoolVar(&opt.NoEvidence, "no-evidence", false, "do not write evidence/<id>.json (development runs)")
 	flag.BoolVar(&opt.NoReplay, "no-replay", false, "do not replay counterexamples on the real code")
 	flag.DurationVar(&opt.Timeout, "timeout", 0, "per-query timeout (default 20s quick, 120s thorough)")
 	baseline := flag.Bool("write-baseline", false, "record the obligations discharged by this run as the baseline of the property")
